@@ -381,6 +381,10 @@ REGEX = [
     (("c", re.compile("b")), []), (("c", re.compile(b"a+")), []), (("c", re.compile("AB", re.I)), []),
     (("c", _P1), [("c", _P2)]),
     (("s", "x?a", 0), []), (("s", "b.", re.S), []),
+    # the same pattern text with other flags than an entry above (validators built from one text and one re
+    # function but different flags coexist in a run and must not be confused with each other)
+    (("s", "abc", 0), []), (("s", "a$", 0), []), (("s", "b.", 0), []), (("s", "ab", re.I), []), (("s", "a", re.I), []),
+    (("s", "abc", re.I | re.S), []),
 ]
 FUNCS = {None: (None, "None", "fullmatch"), "fullmatch": (re.fullmatch, "(Some Fullmatch)", "fullmatch"),
          "search": (re.search, "(Some Search)", "search"), "match": (re.match, "(Some Match)", "match")}
